@@ -51,13 +51,26 @@ structure TRD (α : Type) where
   returnX : Bool
   deriving Repr
 
+/-- what `TimeResponseData.__init__` derives from its array arguments. -/
+structure TRDCore (α : Type) where
+  t : NDArr α
+  y : NDArr α
+  x : Option (NDArr α)
+  u : Option (NDArr α)
+  issiso : Bool
+  ninputs : Nat
+  noutputs : Nat
+  nstates : Nat
+  ntraces : Nat
+
 namespace TRD
 
 variable {α : Type}
 
-/-- `TimeResponseData.__init__` (shape logic and validation; labels are not modelled). -/
-def init (time outputs : NDArr α) (states inputs : Option (NDArr α)) (issiso : Option Bool)
-    (transpose returnX : Bool) (squeeze : Sq) (multiTrace : Bool) : Except Err (TRD α) := do
+/-- `TimeResponseData.__init__`, the part that depends on the arrays only (shape logic and
+validation; labels are not modelled): the stored arrays and the derived counts. -/
+def initCore (time outputs : NDArr α) (states inputs : Option (NDArr α)) (issiso : Option Bool)
+    (multiTrace : Bool) : Except Err (TRDCore α) := do
   let t := time.atleast1d
   if t.ndim ≠ 1 then throw Err.shape
   -- output vector and number of traces
@@ -99,8 +112,16 @@ def init (time outputs : NDArr α) (states inputs : Option (NDArr α)) (issiso :
       else if ninputs > 1 then pure false
       else throw Err.badArg
     | some b => if b && (ninputs > 1 || noutputs > 1) then throw Err.badArg else pure b
+  pure ⟨t, y, states, u, siso, ninputs, noutputs, nstates, ntraces⟩
+
+/-- `TimeResponseData.__init__`: the array part, then the processing keywords are validated
+("Unknown squeeze value") and stored as attributes. -/
+def init (time outputs : NDArr α) (states inputs : Option (NDArr α)) (issiso : Option Bool)
+    (transpose returnX : Bool) (squeeze : Sq) (multiTrace : Bool) : Except Err (TRD α) := do
+  let c ← initCore time outputs states inputs issiso multiTrace
   if squeeze = .other then throw Err.badArg
-  pure ⟨t, y, states, u, siso, ninputs, noutputs, nstates, ntraces, squeeze, transpose, returnX⟩
+  pure ⟨c.t, c.y, c.x, c.u, c.issiso, c.ninputs, c.noutputs, c.nstates, c.ntraces,
+        squeeze, transpose, returnX⟩
 
 /-- `response(squeeze=…, transpose=…, return_x=…)`: a copy with the given keywords replaced. -/
 def call (r : TRD α) (squeeze : Option Sq) (transpose returnX : Option Bool) : TRD α :=
